@@ -163,3 +163,108 @@ def show_ctx(guards: Sequence[Term], iters: Sequence[Term]) -> str:
     if guards:
         s += " if " + " and ".join(T.show_guard(g) for g in guards)
     return s
+
+
+# ----------------------------------------------------------------------------- refactoring-robust views
+def unalias(t: Any, s: Summary, fi: Optional[FuncInfo] = None) -> Any:
+    """Replace opaque locals (kept as variables because they are mutated later) by the value
+    they were bound to, when there is exactly one binding: `d = x.setdefault(k, {}); d[j] = v`
+    is seen as `x.setdefault(k, {})[j] = v`."""
+    binds: Dict[str, List[Event]] = {}
+    for e in s.of_kind("bind"):
+        binds.setdefault(e.term[1][1], []).append(e)
+    params = set(fi.params) if fi is not None else set(s.func.params)
+
+    def walk(x: Any, depth: int) -> Any:
+        if not isinstance(x, tuple):
+            return x
+        if x and x[0] == "var" and len(x) == 2 and x[1] in binds and x[1] not in params and len(binds[x[1]]) == 1 and depth < 6:
+            return walk(binds[x[1]][0].term[2], depth + 1)
+        return tuple(walk(y, depth) for y in x)
+
+    return walk(t, 0)
+
+
+def folded_return(s: Summary) -> Optional[Term]:
+    """All guarded returns of a function folded into one nested conditional value (the own test
+    of each return is its condition; earlier early-exit negations are implied by position)."""
+    rets = list(s.returns)
+    if not rets:
+        return None
+    val: Term = T.NONE
+    tail = rets[-1]
+    common = 0
+    # guards shared by every return (assertions at the top) are not conditions of the value
+    gsets = [r.guards for r in rets]
+    while all(len(g) > common for g in gsets) and len({g[common] for g in gsets}) == 1:
+        common += 1
+    if len(tail.guards) <= common or all(T.guard_term(g) != T.guard_term(tail.guards[-1]) for g in ()):
+        pass
+    seq = rets
+    if len(rets[-1].guards) == common:
+        val = rets[-1].term
+        seq = rets[:-1]
+    elif len(rets) >= 2 and len(rets[-1].guards) == common + 1 and any(T.guard_term(rets[-1].guards[-1]) == T.negate(T.guard_term(r.guards[-1])) for r in rets[:-1] if len(r.guards) > common):
+        # if c: return a  / else: return b   (the last return is the complement of an earlier one)
+        val = rets[-1].term
+        seq = rets[:-1]
+    for r in reversed(seq):
+        own = [T.guard_term(g) for g in r.guards[common:]]
+        if not own:
+            val = r.term
+            continue
+        cond = own[-1] if len(own) == 1 else ("and", tuple(own))
+        val = ("phi", cond, r.term, val)
+    return val
+
+
+def merged_store(stores: Sequence[Event]) -> Optional[Term]:
+    """Value stored into one target by one or several (branch-wise) store events, as a phi."""
+    if not stores:
+        return None
+    if len(stores) == 1:
+        return stores[0].term[2]
+    common = 0
+    gsets = [e.guards for e in stores]
+    while all(len(g) > common for g in gsets) and len({g[common] for g in gsets}) == 1:
+        common += 1
+    val = stores[-1].term[2]
+    for e in reversed(stores[:-1]):
+        own = [T.guard_term(g) for g in e.guards[common:]]
+        if not own:
+            return e.term[2]
+        cond = own[-1] if len(own) == 1 else ("and", tuple(own))
+        val = ("phi", cond, e.term[2], val)
+    return val
+
+
+ATOMIC_CALLEES = {"get_input_data", "get_max_advance", "advance_progress", "notify_dependencies", "rt_check", "prune_dataflow_cache", "get_progress",
+                  "get_avg_progress", "earliest_pending_step", "connect_interval", "group_path", "update_min", "parse_attrs", "parse_set_triple", "wrap_set",
+                  "merge_all", "merge_existing", "extract_version", "doc_link"}
+
+
+def inlined_events(ctx: "Ctx", s: Summary, lo: int = -1, hi: int = 10 ** 9) -> List[Event]:
+    """Events of small synchronous package helpers called between event indices lo and hi,
+    parameter-substituted and re-guarded, as if their bodies stood at the call site (one level).
+    A maintainer extracting a few checks into a helper does not change what the caller does."""
+    out: List[Event] = []
+    for e in s.of_kind("call"):
+        if not (lo < e.idx < hi):
+            continue
+        f = e.term[1]
+        if f[0] != "glob" or f[1] not in ctx.prog.functions:
+            continue
+        callee = ctx.prog.functions[f[1]]
+        if callee.is_async or callee.name in ATOMIC_CALLEES or callee.cls is not None or len(callee.params) != len(e.term[2]) or e.term[3]:
+            continue
+        cs = summarise(ctx.prog, callee)
+        if len(cs.events) > 40:
+            continue
+        mapping = {T.var(p): a for p, a in zip(callee.params, e.term[2])}
+        for ce in cs.events:
+            term = T.replace(ce.term, mapping)
+            guards = e.guards + tuple(T.replace(g, mapping) for g in ce.guards)
+            ne = Event(e.idx, ce.kind, term, term, ce.node, e.stmt, guards, e.iters + tuple(T.replace(i, mapping) for i in ce.iters), e.tries + ce.tries, ce.awaited,
+                       dict(ce.extra, via=callee.qualname, callee_event=ce))
+            out.append(ne)
+    return out
